@@ -144,7 +144,7 @@ def s_len(I, recv, args, kw):
     if not isinstance(args[0], VRef):
         from pyvc.interp import BUILTINS
         return BUILTINS['len'](I, args, kw)
-    n = core.fresh('qlen', z3.IntSort())
+    n = z3.Int('QUEUE_LENGTH')
     I.assume(n >= 0)
     I.st.ghost['QLEN'] = n
     return VInt(n)
